@@ -1,17 +1,19 @@
-\* abstract requirement vs implementation-shaped table + cache; CacheRule "all": LookupIsUnion holds
+\* requirement (eff) vs implementation-shaped table + cache with whole-cache invalidation: LookupIsUnion holds.
+\* (This is the quick-tier configuration; harness/p_filters.py generates the configurations it runs.)
 SPECIFICATION SpecHist
 CONSTANTS
   NP = 2
-  BudSet = {1, 2}
-  Depth = 5
+  BudSet = {1}
+  Depth = 6
   CacheRule = "all"
   AddSet = {"I1", "I2", "P", "I3", "P2", "Q1", "Q2", "K"}
-  GetSet = {"I1", "I2", "P", "I3"}
-  PatSets = {{1}, {2}, {1, 2}, {0}}
+  GetSet = {"I1", "I2", "P"}
+  PatSets = {{1}, {2}}
   MaxLines = 0
   CBudSet = {0}
   PathSet = {"archive"}
 INVARIANT LookupIsUnionInv
 INVARIANT TableIsUnion
 PROPERTY LookupIsUnion
+VIEW HistView
 CHECK_DEADLOCK FALSE
